@@ -29,7 +29,7 @@ TIERS = {"quick": {"runs": 20000, "wall_cap": 240, "det_seeds": 12, "min_tests":
 
 
 def _connected_spec(rng):
-    n = rng.randint(2, 8)
+    n = rng.randint(2, 8) if rng.random() < 0.8 else rng.randint(11, 16)
     nodes = list(range(n))
     edges, seen = [], set()
     order = nodes[:]
@@ -97,8 +97,12 @@ def generate(seed, tier):
                     break
         return {"family": "walk", "seed": seed, "q": rng.choice([0.0, 0.1, 0.4]), "spec": spec, "rewires": rewires,
                 "start": rng.randrange(n), "time": rng.randint(0, 30 if tier == "quick" else 200), "density": dens}
-    spec = _gen.rand_hypergraph_spec(rng, nmin=3, nmax=8, emin=1, emax=9, smin=2, smax=4, singletons=0.1)
-    T = rng.randint(1, 12)
+    if rng.random() < 0.1:
+        spec = _gen.rand_hypergraph_spec(rng, nmin=12, nmax=20, emin=8, emax=24, smin=2, smax=4, singletons=0.05)
+        T = rng.randint(1, 40)
+    else:
+        spec = _gen.rand_hypergraph_spec(rng, nmin=3, nmax=8, emin=1, emax=9, smin=2, smax=4, singletons=0.1)
+        T = rng.randint(1, 12)
     triples = []
     for _ in range(rng.randint(1, 4)):
         x = rng.random()
